@@ -26,12 +26,16 @@ def run(ctx):
     # 1. the design spec, fault-free
     runs = [("ImageCopyMC", "C03_mc_quick.cfg", "img / idx2 / dtag x 2 pairings x 4 option sets x corner targets x 2 tag states, reduced", {}),
             ("ImageCopyMC", "C03_mc_refs.cfg", "art with referrers, two registries, reduced", {}),
+            ("ImageCopyMC", "C03_mc_refs2.cfg", "artshare (separate referrer target, shared config blob; two filter options), registry and layout target, reduced", {}),
+            ("ImageCopyMC", "C03_mc_refs3.cfg", "art with two referrer filter options, two registries, reduced", {}),
             ("ImageCopyMC", "C03_mc_full.cfg", "img / inline, every pre-existing subset, full interleaving", {})]
     if th:
         runs += [("ImageCopyMC", "C03_mc_t1.cfg", "11 shapes x 4 pairings x 6 option sets x corner targets x 2 tag states, reduced", {"timeout": 3000}),
                  ("ImageCopyMC", "C03_mc_t2.cfg", "art / artidx with referrers (all / filtered), referrers API on / off, reduced", {"timeout": 3000}),
                  ("ImageCopyMC", "C03_mc_t3.cfg", "5 small shapes, throttle 3, target by tag / digest, full interleaving", {"timeout": 3000}),
                  ("ImageCopyMC", "C03_mc_t4.cfg", "4 shapes x 4 pairings x 4 option sets x 5 feature sets x source by tag / digest, reduced", {"timeout": 3000}),
+                 ("ImageCopyMC", "C03_mc_t5.cfg", "diamond / diamond2 (one manifest under two parents) x 4 pairings x 4 option sets, reduced", {"timeout": 3000}),
+                 ("ImageCopyMC", "C03_mc_t6.cfg", "artshare: separate referrer target (+ force), 4 pairings, corner targets, referrers API on / off, full interleaving", {"timeout": 3000}),
                  ("ImageCopyMC", "C03_live.cfg", "termination under fairness (img, 1 fault + cancel, throttle 2)", {"workers": 8, "timeout": 3000})]
     mc, states, trans = cc.run_mc(ctx, runs)
     por = cc.por_crosscheck(ctx) if th else None
@@ -54,6 +58,16 @@ def run(ctx):
             for init in (["I", "M1", "M2", "C1", "C2", "L1"], ["I"], ["I", "M1", "M2"]):
                 extra.append(e.scn("artidx", pr, "held-index", opts={"referrers": 1}, init=init, tag0="same", bydigest=byd))
             extra.append(e.scn("ext", pr, "foreign", opts={"inclext": 1}, extup=1, bydigest=byd))
+            # two referrer filter options with disjoint selections, both orders; referrer target != image target
+            # with a config blob shared between the image and its referrer
+            for f1, f2 in ((cc.AT_SBOM, cc.AT_SIG), (cc.AT_SIG, cc.AT_SBOM)):
+                for sh in ("art", "artidx"):
+                    extra.append(e.scn(sh, pr, "filters", opts={"referrers": 1, "reffilter": f1, "reffilter2": f2}, bydigest=byd,
+                                       refapi_src=rng.choice([0, 1]), refapi_tgt=rng.choice([0, 1])))
+            for sh in ("artshare", "art"):
+                for mode in ("random", "fifo", "ungated"):
+                    extra.append(e.scn(sh, pr, "reftgt", opts={"referrers": 1, "reftgt": 1}, bydigest=byd, mode=mode,
+                                       refapi_src=rng.choice([0, 1]), refapi_tgt=rng.choice([0, 1]), mount=rng.choice([0, 1])))
     res = e.run(scripts + mx + extra, "fault-free")
 
     # 3. validation against (P)
